@@ -1,5 +1,6 @@
 import EqsigVerif.Model.Single
 import EqsigVerif.Lemmas.Single
+import EqsigVerif.Lemmas.Detrend
 /-!
 # C17 — Butterworth bookkeeping / linearity, detrending, `add_*`, running average
 
@@ -62,6 +63,80 @@ theorem filter_select_value_error (c : Container) (items : List (Option ℚ)) :
 
 example : filterSelect .list [some 1] = .error .ValueError ∧
     filterSelect .other [some 1, some 2] = .error .ValueError := by decide +kernel
+
+/-! ## C17.b — linearity -/
+
+/-- **C17.b** (`butter_linear`). If the external operator (`filtfilt(b, a, ·)` for the fixed `(b, a)` of the call) is
+additive and homogeneous on arrays of one length, then `butter_pass` is additive and homogeneous in the record, for
+every padding mode (the padding values are means of the record, hence linear). -/
+theorem butter_linear (F : List ℚ → List ℚ)
+    (hFadd : ∀ x y, x.length = y.length → F (Np.addL x y) = Np.addL (F x) (F y))
+    (hFsmul : ∀ c x, F (Np.scale c x) = Np.scale c (F x))
+    (v w : List ℚ) (c : ℚ) (mode : GibbsMode) (ge gr : ℕ) (hvw : v.length = w.length) :
+    butterPass F (Np.addL v w) mode ge gr
+      = Np.addL (butterPass F v mode ge gr) (butterPass F w mode ge gr) ∧
+    butterPass F (Np.scale c v) mode ge gr = Np.scale c (butterPass F v mode ge gr) := by
+  constructor
+  · rw [butterPass_eq, butterPass_eq, butterPass_eq, length_addL v w hvw, ← hvw,
+      butterPad_addL v w mode ge gr hvw,
+      hFadd _ _ (by rw [length_butterPad, length_butterPad, hvw]), slice_addL]
+  · rw [butterPass_eq, butterPass_eq, length_scale, butterPad_scale, hFsmul, slice_scale]
+
+/-- non-vacuity: a linear, length-preserving stand-in for the filter (`y[i] = 2·x[i]`), `'mid'` padding -/
+example :
+    let F : List ℚ → List ℚ := fun x => x.map (2 * ·)
+    butterPass F (Np.addL [1, 2, 3] [4, 0, -1]) .mid 1 2
+      = Np.addL (butterPass F [1, 2, 3] .mid 1 2) (butterPass F [4, 0, -1] .mid 1 2) := by decide +kernel
+
+/-! ## C17.d — detrending -/
+
+/-- **C17.d** (`detrend_projection`, T + X). `r = remove_poly y` computed with coefficients `cofs` (`k + 1` of them, highest
+power first), `x = linspace(0, 1, n)`, `V = span{1, x, …, x^k} ⊂ ℝⁿ`, `P` the orthogonal projection onto `V`:
+* the result has the length of the record and `y − r ∈ V` — for **any** coefficients (exactly one polynomial of degree
+  `≤ k` is subtracted);
+* if `np.polyfit` returns least-squares coefficients (`PolyfitIsLSQ`: residual ⟂ `1, x, …, x^k`) then `r = y − P y`,
+  `P r = 0` (the best-fit polynomial of the result is zero), detrending again changes nothing (idempotent, as lists),
+  and adding any `q ∈ V` to the record beforehand gives the same result.
+Object-level `Signal.remove_poly` and `fns.generic.remove_poly` are the same model function `removePoly`. -/
+theorem detrend_projection (k : ℕ) (v cofs : List ℚ) (hc : cofs.length = k + 1) :
+    let n := v.length
+    let V := polySpace n k
+    let r := removePolyWith cofs v
+    r.length = n ∧
+    toVec n v - toVec n r ∈ V ∧
+    (PolyfitIsLSQ n k cofs v →
+      toVec n r = toVec n v - V.starProjection (toVec n v) ∧
+      V.starProjection (toVec n r) = 0 ∧
+      (∀ cofs', cofs'.length = k + 1 → PolyfitIsLSQ n k cofs' r → removePolyWith cofs' r = r) ∧
+      (∀ q cofs', q.length = n → toVec n q ∈ V → cofs'.length = k + 1 →
+        PolyfitIsLSQ n k cofs' (Np.addL v q) → removePolyWith cofs' (Np.addL v q) = r)) := by
+  intro n V r
+  have hrlen : r.length = n := length_removePolyWith cofs v
+  refine ⟨hrlen, correction_mem k v cofs hc, fun hlsq => ?_⟩
+  have hr : toVec n r = resid V (toVec n v) := removePoly_eq_resid k v cofs hc hlsq
+  refine ⟨hr, by rw [hr]; exact proj_resid V _, ?_, ?_⟩
+  · intro cofs' hc' hlsq'
+    have h1 := removePoly_eq_resid k r cofs' hc' (by rw [hrlen]; exact hlsq')
+    rw [hrlen] at h1
+    apply toVec_injective n _ _ (by rw [length_removePolyWith, hrlen]) hrlen
+    rw [h1, hr, resid_idem]
+  · intro q cofs' hq hqV hc' hlsq'
+    have hlen : (Np.addL v q).length = n := by simp [Np.addL, hq, n]
+    have h1 := removePoly_eq_resid k (Np.addL v q) cofs' hc' (by rw [hlen]; exact hlsq')
+    rw [hlen] at h1
+    apply toVec_injective n _ _ (by rw [length_removePolyWith, hlen]) hrlen
+    rw [h1, hr, toVec_addL n v q rfl hq, resid_add_mem V _ _ hqV]
+
+/-- non-vacuity: record `[0, 1, 5]` on `x = [0, 1/2, 1]`, degree 1; the least-squares line is `5x − 1/2`, the
+coefficients `[5, -1/2]` satisfy the hypothesis and the residual is `[1/2, -1, 1/2]` -/
+example : removePolyWith [5, -1/2] [0, 1, 5] = [1/2, -1, 1/2] ∧ PolyfitIsLSQ 3 1 [5, -1/2] [0, 1, 5] := by
+  have h : removePolyWith [5, -1/2] [0, 1, 5] = [1/2, -1, 1/2] := by decide +kernel
+  refine ⟨h, ?_⟩
+  intro j hj
+  have hx : linspace01 3 = [0, 1/2, 1] := by decide +kernel
+  rw [h]
+  interval_cases j <;>
+    simp [toVec, powVec, hx, PiLp.inner_apply, Fin.sum_univ_three] <;> norm_num
 
 /-! ## C17.e — `add_constant`, `add_series`, `add_signal` -/
 
